@@ -1339,6 +1339,7 @@ def run(ctx: vlib.Ctx):
     ctx.theorems("props/C08_kernel_K17.vo", ["K17_nullable"], kernels=["K17"])
     ctx.theorems("props/C08_kernel_K18.vo", ["K18_bookkeeping", "K18_use_kwargs"], kernels=["K18", "K8"])
     ctx.theorems("props/C08_project.vo", thm)
+    ctx.theorems("props/C08_fix.vo", ["C08_project_fixed_full"])
     ctx.theorems("props/C08_nested.vo", ["C08_nested_partial", "C08_union_flags_refuted", "C08_forwarded_exactly", "C08_no_leak",
                                             "C08_option_free_is_plain", "C08_codec_partial", "C08_codec_obj", "C08_codec_no_leak"])
 
